@@ -269,6 +269,9 @@ template <class M> std::string geometry(M &m, uint64_t &n) {
       bool nan = false;
       for (int i = 0; i < 3; ++i) if (std::isnan(e[(size_t)i])) nan = true;
       if (nan) continue;
+      const NormalAttrib<M> &cna = na;  // the const accessors are separate overloads
+      if (!near(cna[f], e, S(1)) || !near(cna[m.halfface_handle(f, 0)], e, S(1)) || !near(cna[m.halfface_handle(f, 1)], e * S(-1), S(1))) { o << "NormalAttrib (const access) normal of face " << f.idx() << " / its halffaces differs from normal(halfface 0) and its negation"; return o.str(); }
+      if (!near(na[m.halfface_handle(f, 0)], e, S(1))) { o << "NormalAttrib halfface-0 normal of face " << f.idx() << " differs from normal(halfface 0)"; return o.str(); }
       if (!near(na[f], e, S(1)) || !near(na[m.halfface_handle(f, 1)], e * S(-1), S(1))) { o << "NormalAttrib face normal of face " << f.idx() << " differs from normal(halfface 0)"; return o.str(); }
     }
     for (auto v : m.vertices()) {
